@@ -1242,6 +1242,41 @@ func vsGen(r *vu.Rng, size int) *vsCluster {
 				vsBTP{NS: other, Name: "btp-twoca-2", TS: 1, Targets: []string{"svc-a"}, Host: "backend.example.com", CA: vsPtr("ca")})
 		}
 	}
+	// one rule, two Services of one namespace, each under its own BackendTLSPolicy; the two policies say the same (system CAs, one
+	// hostname): the backends agree and the rule must be served
+	if len(c.Routes) > 0 && !c.Routes[0].GRPC && len(c.Routes[0].Rules) > 0 && r.Chance(1, 10) {
+		rt := &c.Routes[0]
+		has := func(name string) bool {
+			for _, sv := range c.Services {
+				if sv.NS == rt.NS && sv.Name == name {
+					return true
+				}
+			}
+			return false
+		}
+		for _, name := range []string{"svc-a", "svc-b"} {
+			if !has(name) {
+				c.Services = append(c.Services, vsService{NS: rt.NS, Name: name, Ports: []int32{80}})
+			}
+		}
+		rt.Rules[0].Filters = nil
+		rt.Rules[0].Matches = []vsMatch{{Path: "/wk"}}
+		rt.Rules[0].Backends = []vsBackend{{Name: "svc-a", Port: 80, Weight: 1}, {Name: "svc-b", Port: 80, Weight: int32(1 + r.Intn(3))}}
+		var bt []vsBTP
+		for _, b := range c.BTPs {
+			keep := true
+			for _, t := range b.Targets {
+				if b.NS == rt.NS && (t == "svc-a" || t == "svc-b") {
+					keep = false
+				}
+			}
+			if keep {
+				bt = append(bt, b)
+			}
+		}
+		c.BTPs = append(bt, vsBTP{NS: rt.NS, Name: "btp-wk-1", TS: 1, Targets: []string{"svc-a"}, Host: "backend.example.com", WellKnown: true},
+			vsBTP{NS: rt.NS, Name: "btp-wk-2", TS: 2, Targets: []string{"svc-b"}, Host: "backend.example.com", WellKnown: true})
+	}
 	// two HTTPS listeners whose certificates live in one foreign namespace, of which a ReferenceGrant names only the first
 	if len(c.Gateways) > 0 && c.Gateways[0].Class == vpClassName && r.Chance(1, 8) {
 		g := &c.Gateways[0]
@@ -1266,9 +1301,13 @@ func vsGen(r *vu.Rng, size int) *vsCluster {
 // vsGenRequests draws requests over what the state mentions plus near misses.
 func vsGenRequests(r *vu.Rng, c *vsCluster, n int) []vsRequest {
 	ports := map[int32]string{}
+	var lhosts []string // hostnames of the listeners: a Route without hostnames is served under these
 	for _, g := range c.Gateways {
 		for _, l := range g.Listeners {
 			ports[l.Port] = l.Proto
+			if l.Host != nil && *l.Host != "" {
+				lhosts = append(lhosts, *l.Host)
+			}
 		}
 	}
 	var plist []int32
@@ -1317,6 +1356,8 @@ func vsGenRequests(r *vu.Rng, c *vsCluster, n int) []vsRequest {
 			a := aims[r.Intn(len(aims))]
 			if len(a.hosts) > 0 && r.Chance(3, 4) {
 				q.Host = concrete(a.hosts[r.Intn(len(a.hosts))])
+			} else if len(a.hosts) == 0 && len(lhosts) > 0 && r.Chance(3, 4) {
+				q.Host = concrete(lhosts[r.Intn(len(lhosts))])
 			}
 			q.Path = a.m.Path
 			if !a.m.Exact && r.Chance(1, 3) {
